@@ -247,6 +247,8 @@ pub struct Judged {
     pub restarts: u64,
     pub reused: u64,
     pub served_after_fault: u64,
+    /// ok replies directly after a timeout / crash (necessarily from a new child)
+    pub served_after_kill: u64,
     /// F-20, shape 1: one request lost (Crashed), child restarted afterwards
     pub lost_then_recovered: u64,
     /// F-20, shape 2: the parent task ended; every later request lost
@@ -364,6 +366,7 @@ pub fn judge(sc: &Scenario, obs: &[Obs], complete: bool, known: &BTreeSet<String
         restarts: 0,
         reused: 0,
         served_after_fault: 0,
+        served_after_kill: 0,
         lost_then_recovered: 0,
         sandbox_dead: false,
     };
@@ -427,6 +430,9 @@ pub fn judge(sc: &Scenario, obs: &[Obs], complete: bool, known: &BTreeSet<String
                         }
                     }
                     last_inc = Some(inc);
+                    if must_restart.is_some() {
+                        j.served_after_kill += 1;
+                    }
                     must_restart = None;
                     if fault_seen {
                         j.served_after_fault += 1;
@@ -785,7 +791,8 @@ pub fn check_scenario(env: &Env, sc: &Scenario, st: &mut Stats) -> CaseResult {
                 if j.sandbox_dead {
                     st.class("f20_parent_task_ended_all_later_requests_lost");
                 }
-                st.class_n("restarts_observed", j.restarts);
+                st.class_n("restarts_observed_by_pid_change", j.restarts);
+                st.class_n("first_request_served_after_timeout_or_crash", j.served_after_kill);
                 st.class_n("same_child_served_consecutive_requests", j.reused);
                 st.class_n("requests_served_after_a_fault", j.served_after_fault);
                 return Ok(());
@@ -816,12 +823,6 @@ pub enum Sym {
 }
 
 pub const SYMS: [Sym; 6] = [Sym::Normal, Sym::Panic, Sym::Overrun, Sym::OverAlloc, Sym::Exit, Sym::Large];
-
-impl Sym {
-    fn fault(self) -> bool {
-        matches!(self, Sym::Panic | Sym::Overrun | Sym::OverAlloc | Sym::Exit)
-    }
-}
 
 /// canonical request for a symbol at position i
 pub fn canon(sym: Sym, i: usize) -> Req {
